@@ -407,13 +407,54 @@ def run(ctx):
                       "each line must be written as str(line) + LF (found %s)"
                       % [unparse(w) for w in writes])
     f_init = ctx.anchor("Gfa.__init__", gfacls.find_method("__init__"))
-    ctx.instance(R)
-    ok, why = init_feeds_add_line(f_init)
-    ctx.oblige(ok)
-    if not ok:
-        ctx.violation(R, f_init.short, "entry",
-                      "Gfa(str) must split on LF and Gfa(list) take the list; "
-                      "every element must go to add_line (%s)" % why)
+    # Gfa(text) / Gfa(list): interpreted with the adders stubbed -- the text
+    # is cut at LF only (not at CR, VT, FF, the Unicode separators, which
+    # may occur inside a field), a list is taken as it is, every element
+    # goes to add_line in order and the queue is processed afterwards
+    from .c13 import GfaHooks
+    hdr_cls = repo.cls("line.Header")
+
+    class InitHooks(GfaHooks):
+        stubs = ("add_line", "process_line_queue", "validate",
+                 "_validate_version")
+
+        def construct(self, ev, cls, args, kwargs):
+            if cls is hdr_cls:
+                return Abs(hdr_cls, label="header")
+            return super().construct(ev, cls, args, kwargs)
+
+        def method(self, ev, base, name, args, kwargs, node):
+            if isinstance(base, Abs) and base.label == "gfa" and \
+                    name in self.stubs:
+                ev.events.append((name,) + tuple(args))
+                return None
+            if isinstance(base, Abs) and base.label == "header" and \
+                    name == "connect":
+                return None
+            return super().method(ev, base, name, args, kwargs, node)
+    odd = "S\ta\t*\rx\x0bY\x0c\x1c\x1d\x1e\x85\u2028z\u2029"
+    for kind, arg, want in (
+            ("text", "l1\n" + odd + "\nl3", ["l1", odd, "l3"]),
+            ("text ending with LF", "l1\nl2\n", ["l1", "l2", ""]),
+            ("list", ["l1", odd, "l3"], ["l1", odd, "l3"]),
+            ("empty text", "", [""])):
+        ctx.instance(R)
+        g = Abs(gfacls, label="gfa")
+        try:
+            out = eval_function(repo, f_init, [g, arg], {"vlevel": 1},
+                                hooks=InitHooks(repo))
+        except Unsupported as e:
+            raise AnalysisError(str(e))
+        evs = [e for e in out[2] if e[0] in ("add_line",
+                                             "process_line_queue")]
+        ok = out[0] == "return" and \
+            evs == [("add_line", w) for w in want] + [("process_line_queue",)]
+        ctx.oblige(ok)
+        if not ok:
+            ctx.violation(R, f_init.short, "entry: Gfa(%s)" % kind,
+                          "outcome %r; the lines handed to add_line are %r, "
+                          "expected %r followed by the queue replay" % (
+                              out[0:2], [e[1:] for e in evs], want))
     ctx.instance(R)
     f_add = gfacls.find_method("add_line")
     ok = f_add is not None
